@@ -127,16 +127,27 @@ pub fn run(ctx: &mut Ctx) {
         let mut rng = ctx.rng(case);
         // wide receivers (more assertions than any small fixed table or linear-scan threshold)
         if case % 50 == 7 {
-            let w = *rng.pick(&[63usize, 64, 65, 66, 100, 128, 129, 255, 256, 257, 300]);
+            // one in twenty of them is very wide (past 1024 / 4096, where a sort or a lookup may switch strategy)
+            let very = case % 1000 == 7;
+            let w = if very { *rng.pick(&[1023usize, 1025, 2049, 4095, 4097, 4200][..]) } else { *rng.pick(&[63usize, 64, 65, 66, 100, 128, 129, 255, 256, 257, 300][..]) };
             ctx.eval();
             ctx.count("wide_receivers");
+            if very {
+                ctx.count(&format!("very_wide_receivers_{}", w));
+            }
             let subj = Envelope::new(format!("wide-{}", case));
             let items: Vec<Envelope> = (0..w).map(|i| Envelope::new_assertion(i as u64, format!("v{}", (i * 7 + case as usize) % 11))).collect();
             let mut order: Vec<usize> = (0..w).collect();
             rng.shuffle(&mut order);
             let r = trap::guard(|| {
                 let mut a = subj.clone();
-                for &i in &order {
+                // (a very wide node gets all but its last 48 arrivals in one batch: one-by-one is quadratic)
+                let single_from = if very { w - 48 } else { 0 };
+                if single_from > 0 {
+                    let first: Vec<Envelope> = order[..single_from].iter().map(|&i| items[i].clone()).collect();
+                    a = a.add_assertion_envelopes(&first).unwrap();
+                }
+                for &i in &order[single_from..] {
                     a = add_variant(&a, &items[i], &mut rng.fork());
                 }
                 let rev: Vec<Envelope> = order.iter().rev().map(|&i| items[i].clone()).collect();
